@@ -112,12 +112,15 @@ pub fn run_casekey_case(id: &str, r: &mut Rng, out: &mut String) {
 
 /// Malformed and well-formed `-b` strings through the real parser.
 pub fn run_parse_case(id: &str, r: &mut Rng, out: &mut String) {
-    let good = format!("SYM:{}:{}", r.range(0, 500), Decimal::new(r.range(0, 100000), 2));
+    // a cost base is a sum of costs converted at exchange rates: more than two decimals are normal
+    let good = format!("SYM:{}:{}", r.range(0, 500), Decimal::new(r.range(0, 100000000), if r.chance(50) { 2 } else { 2 + r.below(5) as u32 }));
     let variants: Vec<(String, bool)> = vec![
         (good.clone(), true),
         (" SYM :1.5:0".to_string(), true),
         ("Brk.b:1.25:300".to_string(), true),
         ("goog:20:1000.00".to_string(), true),
+        ("SYM:2.125:1000.1255".to_string(), true),
+        ("DUST:8:0.000001".to_string(), true),
         ("SYM:0:0".to_string(), true),
         ("SYM:1".to_string(), false),
         ("SYM:1:2:3".to_string(), false),
